@@ -171,13 +171,17 @@ func exec(in string) string {
 				out = typedLCS5(f[1], tr.UnInts(f[2]), tr.UnInts(f[3]))
 				break
 			}
+			if funcTyped(f[1]) {
+				out = execFuncTyped(f)
+				break
+			}
 			pre, spare := parseWin(f, 4)
-			wa := mkWindow(tr.UnInts(f[2]), pre, spare)
+			wa := mkWindow(unInts5(f[2]), pre, spare) // unInts5: also "v*n", "a~b" (round5.go)
 			var wb window
 			if pre < 0 {
-				wb = mkWindow(tr.UnInts(f[3]), -1, 0)
+				wb = mkWindow(unInts5(f[3]), -1, 0)
 			} else {
-				wb = mkWindow(tr.UnInts(f[3]), spare, pre)
+				wb = mkWindow(unInts5(f[3]), spare, pre)
 			}
 			as, bs := wa.w, wb.w
 			as0, bs0 := slices.Clone(wa.backing), slices.Clone(wb.backing)
@@ -210,6 +214,10 @@ func exec(in string) string {
 		case "I", "N":
 			if typedMode(f[1]) {
 				out = typedLIS(f[0] == "I", f[1], tr.UnInts(f[2]))
+				break
+			}
+			if funcTyped(f[1]) {
+				out = execFuncTyped(f)
 				break
 			}
 			pre, spare := parseWin(f, 3)
